@@ -1568,7 +1568,9 @@ def transform(fn, proceed, to_instrument=True, set_conformer=True):
         to_instrument = [_GENERIC]
 
     try:
-        src = inspect.getsource(fn)
+        # (the source of the code, not of the function: getsource unwraps
+        # functools.wraps wrappers)
+        src = inspect.getsource(fn.__code__)
     except OSError:
         raise TypeError(
             f"transform() requires the source code of the function (got {fn})"
@@ -1653,7 +1655,7 @@ def transform(fn, proceed, to_instrument=True, set_conformer=True):
     )
     new_tree = transformer.result
     ast.fix_missing_locations(new_tree)
-    _, lineno = inspect.getsourcelines(fn)
+    _, lineno = inspect.getsourcelines(fn.__code__)
     ast.increment_lineno(new_tree, lineno - 1)
     freevars = fn.__code__.co_freevars
     module_code = _compile(filename, new_tree, freevars, classname)
@@ -1678,7 +1680,8 @@ def transform(fn, proceed, to_instrument=True, set_conformer=True):
         holder = _find_code(holder, classname)
     if freevars:
         holder = _find_code(holder, "#WRAP")
-    new_code = _find_code(holder, fname)
+    # (the name in the source: functools.wraps changes fn.__name__)
+    new_code = _find_code(holder, fn.__code__.co_name)
     cells = dict(zip(fn.__code__.co_freevars, fn.__closure__ or ()))
     actual_fn = types.FunctionType(
         new_code,
